@@ -37,52 +37,52 @@ def restart_replays_old_after_new():
     """DESIGN section 6 lead: u1 (being cleaned up) and u2 (running) of the same
     instance on one host; the service loses its session, the fresh process
     replays u2 then u1; delete(u1) then removes u2's nodes."""
-    cs = [_container('c0', 0, X, 'hosta', 'aaaaaaaaaaaa1'), _container('c1', 1, X, 'hosta', 'aaaaaaaaaaaa2')]
+    cs = [_container('c0', 0, X, 'node1', 'aaaaaaaaaaaa1'), _container('c1', 1, X, 'node1', 'aaaaaaaaaaaa2')]
     scn = _scn(cs, [{'id': 'put:c0', 'kind': 'put', 'cid': 'c0'}, {'id': 'put:c1', 'kind': 'put', 'cid': 'c1'},
                     {'id': 'del:c0', 'kind': 'del', 'cid': 'c0'}], expiries=1)
-    script = ['act:put:c0', 'req:hosta', 'act:put:c1', 'req:hosta', 'run:hosta:created:c1',
-              'expire:hosta', 'boot:hosta', 'req:hosta', 'req:hosta', 'run:hosta:created', 'act:del:c0',
-              'req:hosta', 'run:hosta:deleted', 'run:hosta:deleted']
+    script = ['act:put:c0', 'req:node1', 'act:put:c1', 'req:node1', 'run:node1:created:c1',
+              'expire:node1', 'boot:node1', 'req:node1', 'req:node1', 'run:node1:created', 'act:del:c0',
+              'req:node1', 'run:node1:deleted', 'run:node1:deleted']
     return scn, script, 'replay-order'
 
 
 def identity_handed_on():
-    """Instance X held identity 3 on hosta; it is handed to instance Y started
+    """Instance X held identity 3 on node1; it is handed to instance Y started
     on the same host while X's clean-up is still pending; delete(X) removes the
     identity node that now names Y."""
-    cs = [_container('c0', 0, X, 'hosta', 'aaaaaaaaaaaa1', group='proid.grp', identity=3),
-          _container('c1', 1, Y, 'hosta', 'aaaaaaaaaaaa2', group='proid.grp', identity=3)]
+    cs = [_container('c0', 0, X, 'node1', 'aaaaaaaaaaaa1', group='proid.grp', identity=3),
+          _container('c1', 1, Y, 'node1', 'aaaaaaaaaaaa2', group='proid.grp', identity=3)]
     scn = _scn(cs, [{'id': 'put:c0', 'kind': 'put', 'cid': 'c0'}, {'id': 'put:c1', 'kind': 'put', 'cid': 'c1'},
                     {'id': 'del:c0', 'kind': 'del', 'cid': 'c0'}])
-    script = ['act:put:c0', 'req:hosta', 'run:hosta:created:c0', 'act:put:c1', 'req:hosta',
-              'run:hosta:created:c1', 'run:hosta:created:c1', 'run:hosta:created:c1', 'act:del:c0',
-              'req:hosta'] + ['run:hosta:deleted:c0'] * 5
+    script = ['act:put:c0', 'req:node1', 'run:node1:created:c0', 'act:put:c1', 'req:node1',
+              'run:node1:created:c1', 'run:node1:created:c1', 'run:node1:created:c1', 'act:del:c0',
+              'req:node1'] + ['run:node1:deleted:c0'] * 5
     return scn, script, None
 
 
 def delete_after_owner_changed():
     """_safe_delete reads the node (own), an administrator's kill_node removes
     it, the other host's waiting request registers it, _safe_delete deletes."""
-    cs = [_container('c0', 0, X, 'hosta', 'aaaaaaaaaaaa1'), _container('c1', 1, X, 'hostb', 'aaaaaaaaaaaa2')]
+    cs = [_container('c0', 0, X, 'node1', 'aaaaaaaaaaaa1'), _container('c1', 1, X, 'node10', 'aaaaaaaaaaaa2')]
     scn = _scn(cs, [{'id': 'put:c0', 'kind': 'put', 'cid': 'c0'}, {'id': 'put:c1', 'kind': 'put', 'cid': 'c1'},
                     {'id': 'del:c0', 'kind': 'del', 'cid': 'c0'},
-                    {'id': 'aux0:unreg_running:hosta:c0', 'kind': 'unreg_running', 'cid': 'c0', 'host': 'hosta'}])
-    script = ['act:put:c0', 'req:hosta', 'act:put:c1', 'req:hostb', 'run:hostb:created:c1',
-              'run:hostb:created:c1', 'act:del:c0', 'req:hosta', 'act:aux0', 'watch:hostb', 'run:hostb:watch',
-              'req:hostb', 'run:hosta:deleted:c0', 'run:hosta:deleted:c0']
+                    {'id': 'aux0:unreg_running:node1:c0', 'kind': 'unreg_running', 'cid': 'c0', 'host': 'node1'}])
+    script = ['act:put:c0', 'req:node1', 'act:put:c1', 'req:node10', 'run:node10:created:c1',
+              'run:node10:created:c1', 'act:del:c0', 'req:node1', 'act:aux0', 'watch:node10', 'run:node10:watch',
+              'req:node10', 'run:node1:deleted:c0', 'run:node1:deleted:c0']
     return scn, script, None
 
 
 def set_after_node_deleted():
     """_safe_create finds its own node with other content, the node is removed
     by unregister_endpoints, the update raises NoNodeError: error reply."""
-    cs = [_container('c0', 0, X, 'hosta', 'aaaaaaaaaaaa1', ports=[('http', 8000, 40001)]),
-          _container('c1', 1, X, 'hosta', 'aaaaaaaaaaaa2', ports=[('http', 8000, 40002)])]
+    cs = [_container('c0', 0, X, 'node1', 'aaaaaaaaaaaa1', ports=[('http', 8000, 40001)]),
+          _container('c1', 1, X, 'node1', 'aaaaaaaaaaaa2', ports=[('http', 8000, 40002)])]
     scn = _scn(cs, [{'id': 'put:c0', 'kind': 'put', 'cid': 'c0'}, {'id': 'put:c1', 'kind': 'put', 'cid': 'c1'},
-                    {'id': 'aux0:unreg_endpoints:hosta:c0', 'kind': 'unreg_endpoints', 'cid': 'c0', 'host': 'hosta'}])
-    script = ['act:put:c0', 'req:hosta', 'run:hosta:created:c0', 'act:put:c1', 'req:hosta',
-              'run:hosta:created:c1', 'run:hosta:created:c1', 'run:hosta:created:c1', 'act:aux0',
-              'run:hosta:created:c1']
+                    {'id': 'aux0:unreg_endpoints:node1:c0', 'kind': 'unreg_endpoints', 'cid': 'c0', 'host': 'node1'}])
+    script = ['act:put:c0', 'req:node1', 'run:node1:created:c0', 'act:put:c1', 'req:node1',
+              'run:node1:created:c1', 'run:node1:created:c1', 'run:node1:created:c1', 'act:aux0',
+              'run:node1:created:c1']
     return scn, script, None
 
 
@@ -90,29 +90,29 @@ def set_after_owner_changed():
     """_safe_create finds its own endpoint node with other content; an
     administrator unregisters the host's nodes, the other host registers the
     instance; the update then overwrites the other host's endpoint."""
-    cs = [_container('c0', 0, X, 'hosta', 'aaaaaaaaaaaa1', ports=[('http', 8000, 40001)]),
-          _container('c1', 1, X, 'hosta', 'aaaaaaaaaaaa2', ports=[('http', 8000, 40002)]),
-          _container('c2', 2, X, 'hostb', 'aaaaaaaaaaaa3', ports=[('http', 8000, 40003)])]
+    cs = [_container('c0', 0, X, 'node1', 'aaaaaaaaaaaa1', ports=[('http', 8000, 40001)]),
+          _container('c1', 1, X, 'node1', 'aaaaaaaaaaaa2', ports=[('http', 8000, 40002)]),
+          _container('c2', 2, X, 'node10', 'aaaaaaaaaaaa3', ports=[('http', 8000, 40003)])]
     scn = _scn(cs, [{'id': 'put:c0', 'kind': 'put', 'cid': 'c0'}, {'id': 'put:c1', 'kind': 'put', 'cid': 'c1'},
                     {'id': 'put:c2', 'kind': 'put', 'cid': 'c2'},
-                    {'id': 'aux0:unreg_all:hosta:c0', 'kind': 'unreg_all', 'cid': 'c0', 'host': 'hosta'}])
-    script = ['act:put:c0', 'req:hosta', 'run:hosta:created:c0', 'act:put:c1', 'req:hosta',
-              'run:hosta:created:c1', 'run:hosta:created:c1', 'run:hosta:created:c1', 'act:aux0',
-              'act:put:c2', 'req:hostb', 'run:hostb:created:c2', 'run:hosta:created:c1']
+                    {'id': 'aux0:unreg_all:node1:c0', 'kind': 'unreg_all', 'cid': 'c0', 'host': 'node1'}])
+    script = ['act:put:c0', 'req:node1', 'run:node1:created:c0', 'act:put:c1', 'req:node1',
+              'run:node1:created:c1', 'run:node1:created:c1', 'run:node1:created:c1', 'act:aux0',
+              'act:put:c2', 'req:node10', 'run:node10:created:c2', 'run:node1:created:c1']
     return scn, script, None
 
 
 def wakeup_masked_by_own_node():
-    """c1 on hostb waits for hosta's node; the node goes away, c2 on hostb
+    """c1 on node10 waits for node1's node; the node goes away, c2 on node10
     registers it before c1's DataWatch re-reads: the callback sees a live node
     of its own session and no event, c1 is never retried."""
-    cs = [_container('c0', 0, X, 'hosta', 'aaaaaaaaaaaa1'), _container('c1', 1, X, 'hostb', 'aaaaaaaaaaaa2'),
-          _container('c2', 2, X, 'hostb', 'aaaaaaaaaaaa3')]
+    cs = [_container('c0', 0, X, 'node1', 'aaaaaaaaaaaa1'), _container('c1', 1, X, 'node10', 'aaaaaaaaaaaa2'),
+          _container('c2', 2, X, 'node10', 'aaaaaaaaaaaa3')]
     scn = _scn(cs, [{'id': 'put:c0', 'kind': 'put', 'cid': 'c0'}, {'id': 'put:c1', 'kind': 'put', 'cid': 'c1'},
                     {'id': 'put:c2', 'kind': 'put', 'cid': 'c2'}, {'id': 'del:c0', 'kind': 'del', 'cid': 'c0'}])
-    script = ['act:put:c0', 'req:hosta', 'act:put:c1', 'req:hostb', 'run:hostb:created:c1',
-              'run:hostb:created:c1', 'act:del:c0', 'req:hosta', 'run:hosta:deleted', 'run:hosta:deleted',
-              'watch:hostb', 'act:put:c2', 'req:hostb', 'run:hostb:watch']
+    script = ['act:put:c0', 'req:node1', 'act:put:c1', 'req:node10', 'run:node10:created:c1',
+              'run:node10:created:c1', 'act:del:c0', 'req:node1', 'run:node1:deleted', 'run:node1:deleted',
+              'watch:node10', 'act:put:c2', 'req:node10', 'run:node10:watch']
     return scn, script, None
 
 
